@@ -187,6 +187,16 @@ add(
     "Statistical: biases below ~6 SE (quick 0.03-0.07, thorough ~0.015-0.03) are not detected; small acceptance biases are C09's job.",
 )
 
+add(
+    "C18",
+    "property-based testing (Hypothesis) of near-miss configurations against a validity predicate transcribed from the statement; accepted configurations are initialised and run in forks",
+    "Valid lattice configurations are mutated in 0-2 fields (interfaces order/duplicates/count, workers, moves length, cap incl. 0.0 and wf-ensemble "
+    "interfaces, lambda_-1 incl. 0, engine sections, quantis); invalid by the predicate => setup_config must raise TOMLConfigError (acceptance or any "
+    "other exception is a violation); accepted => with constructed valid start paths setup_internal succeeds, diagonal weights non-zero, all first "
+    "picks succeed, a short run completes, and the restart file is a fixed point of setup_config's normalisation. Sampled.",
+    "A configuration valid by the statement may be rejected for reasons the statement does not list. Accepted quantis / lambda_-1 configurations are initialised but not run here (plug-in engine has no energies).",
+)
+
 NOT_YET = "check not built yet in this session (design exists in DESIGN.md §4); will be claimed once its check is registered"
 
 
